@@ -151,15 +151,26 @@ func formatError(e digError, w fmt.State, v rune) {
 // and handle panics in provided/invoked/decorated functions.
 func RootCause(err error) error {
 	var de Error
-	// Dig down to first non dig.Error, or bottom of chain
-	for ; errors.As(err, &de); err = errors.Unwrap(de) {
+	// Find the outermost dig.Error, looking through anything the caller
+	// may have wrapped around it.
+	if !errors.As(err, &de) {
+		return err
 	}
-
-	if err == nil {
-		return de
+	// Dig down to first non dig.Error, or bottom of chain. Only errors that
+	// are themselves a dig.Error are stepped over: an error returned by user
+	// code is the root cause even if it wraps a dig.Error of its own (for
+	// example one obtained from another container).
+	for {
+		cause := errors.Unwrap(de)
+		if cause == nil {
+			return de
+		}
+		next, ok := cause.(Error) //nolint:errorlint // must not look inside cause
+		if !ok {
+			return cause
+		}
+		de = next
 	}
-
-	return err
 }
 
 // errInvalidInput is returned whenever the user provides bad input when
